@@ -915,8 +915,8 @@ TREE_FUNCTIONS = ["graphtage.json.build_tree", "TreeNode.diff", "TreeNode.edits 
 TREE_STUBS = ["numpy matrix in graphtage.levenshtein -> list matrix", "intervaltree in graphtage.bounds -> list model with "
               "nondeterministic tie order", "matching.min_weight_bipartite_matching -> contract stub (any optimal assignment; "
               "decided on the real function by C15)", "DEFAULT_PRINTER.tqdm -> null progress bar (quiet flag kept)",
-              "isinstance/int/type/str shims for proxies in graphtage.{bounds,matching,search,edits,graphtage,sequences,multiset,"
-              "levenshtein,json}"]
+              "isinstance/int/type/str/len shims for proxies in graphtage.{bounds,matching,search,edits,graphtage,sequences,multiset,"
+              "levenshtein,json} (len only in graphtage.graphtage: length of the UTF-8 encoding of a symbolic str)"]
 TREE_ASSUME = ["mapping keys are pairwise distinct inside one mapping (JSON/YAML loaders guarantee it)",
                "multisets with two equal members are excluded from the main jobs (listed finding KF-mset-duplicates) and explored by "
                "dedicated jobs", "leaf text: ints of 1-2 digits over an alphabet of 3 (thorough 4) digits, strings of 1-2 letters; "
